@@ -28,7 +28,7 @@ func tgt1(context.Context, rA) {}
 func TestC03Reentrancy(t *testing.T) {
 	run := vk.New("C03", "reentrancy")
 	defer run.Finish()
-	sites := []string{"handler", "ctxhandler", "asynchandler", "filter", "before", "beforectx", "after", "afterctx"}
+	sites := []string{"handler", "ctxhandler", "asynchandler", "filter", "before", "beforectx", "after", "afterctx", "replayhandler"}
 	calls := []string{"pub-same", "pub-other", "subscribe", "subscribectx", "unsubscribe", "clear", "clearall", "has", "count"}
 	optss := []string{"-", "once", "sequential", "async+sequential"}
 	idx := 0
@@ -40,7 +40,7 @@ func TestC03Reentrancy(t *testing.T) {
 					continue
 				}
 				sig := site + "|" + call + "|" + opt
-				syncSeqSelf := (site == "handler" || site == "ctxhandler" || site == "filter") && opt == "sequential" && call == "pub-same"
+				syncSeqSelf := (site == "handler" || site == "ctxhandler" || site == "filter" || site == "replayhandler") && opt == "sequential" && call == "pub-same"
 				if site == "filter" {
 					syncSeqSelf = false // the filter runs before the sequential lock is taken
 				}
@@ -124,6 +124,9 @@ func scenario(site, call, opt string) string {
 	case "afterctx":
 		opts = append(opts, ebu.WithAfterPublishContext(func(context.Context, reflect.Type, any) { reenter() }))
 	}
+	if site == "replayhandler" {
+		opts = append(opts, ebu.WithStore(ebu.NewMemoryStore()))
+	}
 	bus = ebu.New(opts...)
 	var so []ebu.SubscribeOption
 	switch opt {
@@ -148,6 +151,11 @@ func scenario(site, call, opt string) string {
 		ebu.Subscribe(bus, func(rA) { reenter() }, append(so, ebu.Async())...)
 	case "filter":
 		ebu.Subscribe(bus, func(rA) {}, append(so, ebu.WithFilter(func(rA) bool { reenter(); return true }))...)
+	case "replayhandler":
+		// a handler registered through SubscribeWithReplay on a persistent bus (live phase)
+		if err := ebu.SubscribeWithReplay(context.Background(), bus, "sub", func(rA) { reenter() }, so...); err != nil {
+			return "SubscribeWithReplay: " + err.Error()
+		}
 	default:
 		ebu.Subscribe(bus, func(rA) {}, so...)
 	}
